@@ -135,7 +135,15 @@ class Real(Type):
         elif data == 0.0:
             data = '0'
         else:
-            data = '{}E0'.format(data)
+            data = '{}'.format(data)
+
+            if 'e' in data:
+                # '1e-300', '3e+38': write mantissa and exponent as
+                # RFC 3641 realnumber (mantissa "E" exponent).
+                mantissa, exponent = data.split('e')
+                data = '{}E{}'.format(mantissa, int(exponent))
+            else:
+                data += 'E0'
 
         return data
 
